@@ -470,6 +470,75 @@ pub fn run(tier: Tier) -> i32 {
         });
     }
 
+    // 5. a .set variable that is re-assigned between two data lines, the assignment standing in
+    //    any of the three segments (it is a line of the program, wherever it stands); and one
+    //    symbol that is expensive to resolve used several times in one line (each operand is an
+    //    evaluation of its own)
+    let n_varseg = AtomicU64::new(0);
+    {
+        let mut vw: Vec<(Dir, bool, usize, i128)> = vec![];
+        for d in [Dir::Db, Dir::Dw, Dir::Dd, Dir::Dq] {
+            let (_, hi) = d.range();
+            for flash in [true, false] {
+                for aseg in 0..3usize {
+                    for x in [5i128, 0, hi, hi + 1, -1] {
+                        if x <= i64::MAX as i128 {
+                            vw.push((d, flash, aseg, x));
+                        }
+                    }
+                }
+            }
+        }
+        vw.par_iter().for_each(|(d, flash, aseg, x)| {
+            let data_seg = if *flash { ".cseg" } else { ".eseg" };
+            let assign_seg = [".cseg", ".dseg", ".eseg"][*aseg];
+            let a_ops = vec![Op::Val("v_q".into(), Some(1))];
+            let b_ops = vec![Op::Val("v_q".into(), Some(*x)), Op::Val("v_q - 0".into(), Some(*x))];
+            let src = format!(".set v_q = 1\n{}\n{}\n{}\n.set v_q = {}\n{}\n{}\n", data_seg, line(*d, &a_ops), assign_seg, x, data_seg, line(*d, &b_ops));
+            let o = sut::build_str(&src);
+            evals.fetch_add(1, Ordering::Relaxed);
+            n_varseg.fetch_add(1, Ordering::Relaxed);
+            let want = match (emit(*d, &a_ops, *flash), emit(*d, &b_ops, *flash)) {
+                (Some(mut a), Some(b)) => {
+                    a.extend(b);
+                    Some(a)
+                }
+                _ => None,
+            };
+            let bad: Option<(&str, String)> = match (&want, &o) {
+                (Some(w), Outcome::Ok(b)) => {
+                    let img = if *flash { &b.code } else { &b.eeprom };
+                    if img == w { None } else { Some(("wrong-bytes", format!("expected {} but the image is {}", sut::hex(w), sut::hex_trunc(img, 40)))) }
+                }
+                (Some(w), Outcome::Err(e)) => Some(("rejected", format!("must emit {} but the build fails: {}", sut::hex(w), e))),
+                (None, Outcome::Ok(_)) => Some(("accepted", format!("the value {} does not fit {} but the build succeeds", x, d.name()))),
+                (None, Outcome::Err(_)) => None,
+                (_, Outcome::Panic { site, msg }) => Some(("panic", format!("panic at {}: {}", site, msg))),
+            };
+            if let Some((kind, what)) = bad {
+                rep.violation(&format!("C06/{}/variable-reassigned-in={}/dir={}/data-in={}", kind, assign_seg, d.name(), data_seg), || format!("{} :: {}", src.replace('\n', " / "), what), || json!({"kind": "build_str", "source": src, "observed": o.to_json()}));
+            }
+        });
+        // the expensive symbol: m_16 = m_15 | m_15, ... , m_0 = 1 (65535 resolutions per use)
+        let mut chain = String::from(".equ m_0 = 1\n");
+        for i in 1..=16 {
+            chain.push_str(&format!(".equ m_{} = m_{} | m_{}\n", i, i - 1, i - 1));
+        }
+        let cw: Vec<(Dir, bool, usize)> = [Dir::Db, Dir::Dw, Dir::Dd, Dir::Dq].into_iter().flat_map(|d| [true, false].into_iter().flat_map(move |f| (1..=4usize).map(move |n| (d, f, n)))).collect();
+        cw.par_iter().for_each(|(d, flash, n)| {
+            let ops: Vec<Op> = (0..*n).map(|_| Op::Val("m_16".into(), Some(1))).collect();
+            let src = format!("{}{}\n{}\n", chain, if *flash { ".cseg" } else { ".eseg" }, line(*d, &ops));
+            let o = sut::build_str(&src);
+            evals.fetch_add(1, Ordering::Relaxed);
+            n_varseg.fetch_add(1, Ordering::Relaxed);
+            let want = emit(*d, &ops, *flash).unwrap();
+            let ok = matches!(&o, Outcome::Ok(b) if (if *flash { &b.code } else { &b.eeprom }) == &want);
+            if !ok {
+                rep.violation(&format!("C06/expensive-symbol-used-{}-times/dir={}", n, d.name()), || format!("`{}` with m_16 = m_15 | m_15, ..., m_0 = 1 must emit {} but gives {}", line(*d, &ops), sut::hex(&want), o.brief()), || json!({"kind": "build_str", "source": src, "observed": o.to_json()}));
+            }
+        });
+    }
+
     let nimg = images.lock().unwrap().len();
     rep.guard(n_ok.load(Ordering::Relaxed) > 1000 && n_err.load(Ordering::Relaxed) > 1000, "need both Ok and Err outcomes");
     rep.guard(nimg > 500, "fewer than 500 distinct images");
@@ -489,6 +558,7 @@ pub fn run(tier: Tier) -> i32 {
         "boundary_values_as_expressions_programs": n_exprs.load(Ordering::Relaxed),
         "literals_at_and_beyond_64_bits_programs": n_biglit.load(Ordering::Relaxed),
         "large_symbol_value_programs": n_bigsym.load(Ordering::Relaxed),
+        "variable_reassigned_in_any_segment_and_expensive_symbol_programs": n_varseg.load(Ordering::Relaxed),
         "outcomes": {"ok": n_ok.load(Ordering::Relaxed), "err": n_err.load(Ordering::Relaxed)},
         "caps_hit": [],
         "trusted_base": ["harness reference emitter (element order, little-endian, width, one pad byte per odd .db line in flash only)"],
